@@ -28,8 +28,10 @@ def run(ctx):
     ctx.rule("R08.4", "main task: the action worker's end breaks the join loop and all other workers are shut down (JoinSet::shutdown awaited) before Ok(())")
     ctx.rule("R08.5", "Handler::quit records Abort and quit_gracefully(signal, grace) records Graceful{signal, grace} unconditionally; in the CLI an "
                       "Interrupt/Terminate that is not mapped leads to quit(), testing each signal against its own map entry")
+    ctx.also("R08.5", 'the signal source queues Interrupt / Terminate at Urgent priority with a blocking send whose failure is reported (shared with R01.4 / R01.5)')
     ctx.rule("R08.7", "the supervisor side of a terminating graceful quit: an expired stop timer is cleared when it is turned into the forced control (so the job "
                       "task goes on to read its queue and reaches the Delete), and signalling never panics the job task (unsupported signals fall back to SIGTERM)")
+    ctx.also("R08.7", "the awaited delete() returns because its ticket selects over the job-gone flag and Flag's wake protocol loses no waiter (shared with R07.6 / R07.4)")
     ctx.rule("R08.6", "process-group / session wrappers: session => ProcessSession, else grouped => ProcessGroup::leader(); KillOnDrop always")
 
     # ---- R08.1
